@@ -200,19 +200,27 @@ def fmtMicro (x : Int) : String :=
 
 def coordText (c : Coord) : String := fmtMicro c.lat ++ ", " ++ fmtMicro c.lon
 
+/-- the rows `assignment_csv` writes: (id, coordinate) of every node, in node order -/
+def assignmentRows (pid : Array Nat) (coord : Nat → Coord) : List (Nat × Coord) :=
+  (List.range pid.size).map fun i => (gt pid i, coord i)
+
 /-- `assignment_csv` -/
 def assignmentCsv (pid : Array Nat) (coord : Nat → Coord) : String :=
-  (List.range pid.size).foldl (fun acc i => acc ++ toString (gt pid i) ++ ", " ++ coordText (coord i) ++ "\n")
+  (assignmentRows pid coord).foldl (fun acc row => acc ++ toString row.1 ++ ", " ++ coordText row.2 ++ "\n")
     "partition_id, latitude, longitude\n"
 
 /-- the edges `cut_csv` reports: end points with different ids, in file order -/
 def cutEdges (edges : List Edge) (pid : Array Nat) : List Edge :=
   edges.filter fun e => gt pid e.1 != gt pid e.2
 
+/-- the rows `cut_csv` writes: source point, target point of every reported edge -/
+def cutRows (edges : List Edge) (pid : Array Nat) (coord : Nat → Coord) : List (Coord × Coord) :=
+  (cutEdges edges pid).map fun e => (coord e.1, coord e.2)
+
 /-- `cut_csv` -/
 def cutCsv (edges : List Edge) (pid : Array Nat) (coord : Nat → Coord) : String :=
-  (cutEdges edges pid).foldl
-    (fun acc e => acc ++ coordText (coord e.1) ++ "\n" ++ coordText (coord e.2) ++ "\n")
+  (cutRows edges pid coord).foldl
+    (fun acc r => acc ++ coordText r.1 ++ "\n" ++ coordText r.2 ++ "\n")
     "latitude, longitude\n"
 
 end Tbx.Chipper
